@@ -33,7 +33,9 @@ theorem islice_append (ys zs : List Int) (a b c : Option Int) (bb : Int) (hb : b
   unfold islice
   rw [ha, hb, hc]
   simp only [Bool.or_self, Bool.false_eq_true, ↓reduceIte, Option.map_some]
-  rw [isliceGo_append _ _ (by omega) _ _ _ h]
+  split
+  · rfl
+  · rw [isliceGo_append _ _ (by omega) _ _ _ h]
 
 theorem nthNext_append (ys zs : List Int) (k : Nat) (h : k + 1 ≤ ys.length) :
     nthNext (ys ++ zs) k = nthNext ys k := by
@@ -135,11 +137,13 @@ theorem gen_stops (q : Query) (ys zs : List Int) (h : stops q ys = true) :
     simp only [stops, Bool.and_eq_true, Bool.not_eq_true'] at h
     obtain ⟨hp, hn⟩ := h
     simp only [gen, hp, Bool.false_eq_true, ↓reduceIte]
-    cases b with
-    | none => simp [isliceNeeds] at hn
+    have hp' := (sliceListPath_clamp a b c).trans hp
+    cases hb : clampMax b with
+    | none => rw [hb] at hn; simp [isliceNeeds] at hn
     | some bb =>
+      rw [hb] at hn hp'
       simp only [isliceNeeds, decide_eq_true_eq] at hn
-      rw [islice_append ys zs a (some bb) c bb rfl hp hn]
+      rw [islice_append ys zs (clampMax a) (some bb) (clampMax c) bb rfl hp' hn]
   | contains x => simp only [stops] at h; simp only [gen, containsLoop_append x ys zs h]
   | before t inc => simp only [stops] at h; simp only [gen, beforeLoop_append t inc ys zs none h]
   | after t inc => simp only [stops] at h; simp only [gen, afterLoop_append t inc ys zs h]
